@@ -33,7 +33,11 @@ func expectedInputs(f *Fn) []string {
 		t := typeStr(p.T, p.Host)
 		var toks []string
 		if p.Group != "" {
-			t = "[]" + t
+			if nt := namedSliceType(p.SlT, p.T); nt != nil && p.Host == "" {
+				t = nt.String()
+			} else {
+				t = "[]" + t
+			}
 		}
 		if p.Opt {
 			toks = append(toks, "optional")
@@ -63,6 +67,9 @@ func expectedOutputs(f *Fn, o *Opts, deco bool) []string {
 			t := rtype(k.T).String()
 			if deco && k.Group != "" && s.Slice && !s.Flatten {
 				t = "[]" + t // decorators return the whole group
+				if nt := namedSliceType(s.SlT, k.T); nt != nil {
+					t = nt.String()
+				}
 			}
 			var toks []string
 			if k.Name != "" {
